@@ -155,13 +155,27 @@ struct Interp {
         // an included file is only included from a lower-numbered one: drop the others (no cycles)
         for (int f = 0; f < 4; f++) {
             std::ofstream o(dir + "/f" + std::to_string(f) + ".cfg", std::ios::binary);
-            o << kMagic << "\n";
+            // the magic line may carry any version (a newer one only draws a warning), also one longer than the "<name-" prefix
+            static const char *magics[] = {"<vtapp-1.2.3>", "<vtapp-0.9>", "<vtapp-1.2.3.20261004-snapshot>", "<VTAPP-1.2>", "<vtapp-9.9.9>"};
+            size_t mi = (files[(size_t)f].size() * 7 + (size_t)f * 3) % 5;
+            o << magics[mi] << "\n";
+            if (mi) ctx.label(std::string("magic-line:") + magics[mi]);
+            size_t li = 0;
             for (auto &l : files[(size_t)f]) {
                 std::string raw = l.raw;
-                if (l.kind == 4 && !(l.inc > f && l.inc <= 3)) { raw = "%include missing.cfg"; l.inc = 9; }
+                if (l.kind == 4 && !(l.inc > f && l.inc <= 3)) {
+                    // nothing gets included: the file is missing, or exists but is empty, or exists without the magic line
+                    static const char *refused[] = {"missing.cfg", "empty.cfg", "nomagic.cfg"};
+                    const char *which = refused[(li + (size_t)f) % 3];
+                    raw = std::string("%include ") + which; l.inc = 9;
+                    ctx.label(std::string("include-refused:") + which);
+                }
                 o << raw << "\n";
+                li++;
             }
         }
+        { std::ofstream e(dir + "/empty.cfg", std::ios::binary); }
+        { std::ofstream e(dir + "/nomagic.cfg", std::ios::binary); e << "begin main\nnot ours\nend\n"; }
         std::vector<Entry> want;
         long want_depth = 0;
         model(want, want_depth);
